@@ -366,69 +366,43 @@ def check_cross_derivation(ctx, led, om):
 
 
 def check_m(ctx, led, om):
-    """m(K) equals the specification's effective value as a function of (K, M+K)."""
+    """m(K) compared with the specification's effective value.  Informational only: what must
+    hold is decided at the use sites (classifiers, distances, zero shortcut), which are compared
+    exactly over the joint classes of each raw metric group."""
     spec = ctx.vspec(4)
-    nd = spec["nd"]
-    xdef = spec["x_default"]
     modified_of = spec["modified_of"]
-    base_to_mod = dict((b, m) for m, b in modified_of.items())
     where = om.module.where(ctx.repo.method("cvss4", "CVSS4", "m").node)
     n = 0
-    st = om.st
-    fo = st.folder()
-    real_m = om.v4.get("real_m", {})
-    keys = list(spec["scoring_metrics"])
-    for kk in sorted(real_m):
-        if kk not in keys:
-            keys.append(kk)
-    for kk in keys:
-        n += 1
-        ck = "CVSS4.m(%r)" % kk
-        # m("MSI") must denote the effective value of SI
+    fo = om.st.folder()
+    for kk in sorted(om.v4.get("called", ())):
         k = modified_of.get(kk, kk)
-        if kk not in real_m:
-            if kk in spec["scoring_metrics"] and base_to_mod.get(kk) not in real_m:
-                led.violation("C02.m", ck, where, "scoring never consults the effective value of %s" % kk)
+        if kk not in om.v4.get("eff_fin", {}) or k not in spec["scoring_metrics"]:
+            if k not in spec["scoring_metrics"] and kk in om.accepted:
+                led.violation("C02.m", "CVSS4.m(%r)" % kk, where, "scoring consults %s, which is not a scoring metric of the specification" % kk)
             continue
-        real = real_m[kk]
-        if k not in spec["scoring_metrics"]:
-            led.violation("C02.m", ck, where, "scoring consults %s, which is not a scoring metric of the specification" % kk)
-            continue
-        slots = [metric_slot(k)]
-        mk = base_to_mod.get(k)
-        if mk:
-            slots.append(metric_slot(mk))
-        slots = tuple(sorted(slots))
-        sl, rows = fo.rows(slots)
-        tab = {}
-        for r in rows:
-            vb = r[sl.index(metric_slot(k))]
-            vm = r[sl.index(metric_slot(mk))] if mk else ABSENT
-            if vm not in (ABSENT, nd):
-                e = vm
-            elif vb in (ABSENT, nd):
-                e = xdef.get(k, nd)
-            else:
-                e = vb
-            tab[r] = e
-        exp = fo.simplify(Fin(sl, tab))
-        got = fo.restrict(real) if isinstance(real, Fin) else real
-        if got == exp:
-            led.ok("C02.m", ck, where, "effective value table over %s" % (slots,))
+        n += 1
+        exp = om.spec_leaf(om.st, k, lambda e: e, spec)
+        got = om.v4["eff_fin"][kk]
+        same = fo.simplify(exp) == fo.simplify(got) if exp is not None else False
+        if same:
+            led.ok("C02.m", "CVSS4.m(%r)" % kk, where, "equals the specification's effective value of %s" % k)
         else:
-            diffs = []
-            if isinstance(got, Fin) and isinstance(exp, Fin) and got.slots == exp.slots:
-                for r in sorted(exp.table, key=lambda r: tuple(T.ckey(x) for x in r)):
-                    if got.table.get(r) != exp.table[r]:
-                        diffs.append("%s=%s: m() gives %r, specification %r" % (",".join(s[2:] for s in exp.slots), r, got.table.get(r), exp.table[r]))
-            led.violation(
-                "C02.m",
-                ck,
-                where,
-                "effective value of %s differs from the specification (modified overrides base; %s): %s"
-                % (k, "X counts as %s" % xdef[k] if k in xdef else "no default", "; ".join(diffs[:3]) or repr(got)),
-            )
+            led.info("C02.m", "CVSS4.m(%r)" % kk, where, "differs from the specification's effective value as a function; judged at its use sites")
+    for k in spec["scoring_metrics"]:
+        base_to_mod = dict((b, m) for m, b in modified_of.items())
+        if k not in om.v4.get("called", ()) and base_to_mod.get(k) not in om.v4.get("called", ()):
+            led.violation("C02.m", "CVSS4.m(%r)" % k, where, "scoring never consults the effective value of %s" % k)
     return n
+
+
+def class_env(om, spec, vars_, slots, row):
+    """Specification's effective values of vars_ for one row over their group slots."""
+    env = {}
+    for v in vars_:
+        g = om.v4["eff"][v]
+        leaf = om.spec_leaf(om.st, v, lambda e: e, spec)
+        env[v] = leaf.table.get((row[slots.index(g)],))
+    return env
 
 
 def check_eq(ctx, led, om):
@@ -460,11 +434,20 @@ def check_eq(ctx, led, om):
             led.violation("C02.eq", "CVSS4.macroVector::%s" % eq, where, "%s never consults %s" % (eq, missing))
             continue
         slotmap = dict((v, om.v4["eff"][v]) for v in vars_)
-        slots = tuple(sorted(set(slotmap.values())))
+        got0 = digits[i]
+        extra_slots = set(got0.slots) if isinstance(got0, Fin) else set()
+        slots = tuple(sorted(set(slotmap.values()) | extra_slots))
         sl, rows = fo.rows(slots)
+        if rows is None:
+            raise AnalysisError("C02.eq", "classifier %s depends on too many inputs: %s" % (eq, slots), mvf.node, om.module)
+        from .objmodel import MISMATCH
+
         tab = {}
         for r in rows:
-            env = dict((v, r[sl.index(slotmap[v])]) for v in vars_)
+            env = class_env(om, spec, vars_, sl, r)
+            if any(x is MISMATCH or x is None for x in env.values()):
+                tab[r] = MISMATCH
+                continue
             ls = [l for l, ex in sorted(eqs[eq]["levels"].items()) if spec_eval(ex, env)]
             tab[r] = ls[0]
         rows_total += len(rows)
@@ -488,7 +471,7 @@ def check_eq(ctx, led, om):
                         if gv != exp.table[r]:
                             diffs.append(
                                 "%s: code gives %r, specification %r"
-                                % (", ".join("%s=%s" % (s[4:], x) for s, x in zip(exp.slots, r)), gv, exp.table[r])
+                                % (", ".join("%s=%s" % (s[4:], "/".join(str(y) for y in x) if isinstance(x, tuple) else x) for s, x in zip(exp.slots, r)), gv, exp.table[r])
                             )
             led.violation(
                 "C02.eq",
@@ -551,12 +534,7 @@ def v4_spec_score(sb, om, spec, lookup, case):
         lows["eq3eq6"] = sb.table_leaf(dig, lambda *d: None)
 
     def dist(k):
-        se, sm = eff[k], om.v4["mv_slots"].get(k)
-        if sm is None:
-            raise AnalysisError("C02.tail", "the search loop never extracts %s from the highest-severity vector" % k)
-        a = sb.leaf([se], lambda v: lv[k][v], kind="flt")
-        b = sb.leaf([sm], lambda v: lv[k][v], kind="flt")
-        return a - b
+        return dist_leaf(sb, om, spec, k)
 
     groups = spec["eq_groups"]
     step = sb.num(spec["step"], "flt")
@@ -591,10 +569,41 @@ def v4_spec_score(sb, om, spec, lookup, case):
     rounded = sb.app("float", sb.quant(sb.app("Decimal", v + eps, kind="dec"), spec["step"], HALF_UP), kind="flt")
     # zero shortcut
     fo = sb.st.folder()
-    zs = sorted(set(eff[k] for k in spec["zero_if_all_N"]))
+    zk = list(spec["zero_if_all_N"])
+    zs = sorted(set(eff[k] for k in zk))
     sl, rows = fo.rows(zs)
-    alln = fo.simplify(Fin(sl, dict((r, all(x == "N" for x in r)) for r in rows)))
+    tab = {}
+    for r in rows:
+        env = class_env(om, spec, zk, sl, r)
+        tab[r] = all(x == "N" for x in env.values())
+    alln = fo.simplify(Fin(sl, tab))
     return sb.ite(alln, sb.num("0.0", "flt"), rounded).t
+
+
+def dist_leaf(sb, om, spec, k):
+    """Severity distance of metric k: level(effective value) - level(value in the max vector)."""
+    from .objmodel import MISMATCH
+
+    lv = spec["levels"]
+    sm = om.v4["mv_slots"].get(k)
+    if sm is None:
+        raise AnalysisError("C02.tail", "the search loop never extracts %s from the highest-severity vector" % k)
+    if k not in om.v4["eff"]:
+        raise AnalysisError("C02.tail", "scoring never consults the effective value of %s" % k)
+    leaf = om.spec_leaf(sb.st, k, lambda e: Fraction(lv[k][e]) if e in lv[k] else MISMATCH, spec)
+    leaf = sb.st.folder().simplify(leaf)
+    if isinstance(leaf, Const) and not isinstance(leaf.v, Fraction):
+        a = SE_(sb, P.atom(Opaque("specification-undetermined:" + k), "flt"))
+    else:
+        a = SE_(sb, P.atom(leaf, "flt") if isinstance(leaf, Fin) else P.const(leaf.v, "flt"))
+    b = sb.leaf([sm], lambda v: lv[k][v], kind="flt")
+    return a - b
+
+
+def SE_(sb, t):
+    from .canon import SE
+
+    return SE(sb, t)
 
 
 def check_tail(ctx, led, om):
@@ -702,9 +711,7 @@ def check_search(ctx, led, om):
         if se_ is None or sm is None:
             led.violation("C02.search.reject", "CVSS4.compute_base_score::distance %s" % k, se.where(), "no severity distance is computed for %s" % k)
             continue
-        a = sb.leaf([se_], lambda v, k=k: lv[k][v], kind="flt")
-        b = sb.leaf([sm], lambda v, k=k: lv[k][v], kind="flt")
-        conds.append(sb.cmp("<", a - b, sb.num("0", "int")))
+        conds.append(sb.cmp("<", dist_leaf(sb, om, spec, k), sb.num("0", "int")))
     exp_cont = cn(mk_or(conds))
     outs = dict()
     for status, c in se.data.get("outcomes", []):
